@@ -137,7 +137,7 @@ ExhXS == <<[s \in Sp |-> I(s)], [s \in Sp |-> I((s + 1) % 3)], [s \in Sp |-> I(5
 Finish == /\ pc \in {"rx", "rules"}
           /\ IF Mode = "exh" THEN Len(m.prog.rx) = MaxRx
              ELSE IF Mode = "exhrules" THEN Len(m.rules) >= 1
-             ELSE Len(m.prog.rx) >= 1 /\ (IF Len(m.prog.rx) = MaxRx THEN TRUE ELSE RandomElement(1..3) = 1)
+             ELSE Len(m.prog.rx) >= 1 /\ (IF Len(m.prog.rx) = MaxRx THEN TRUE ELSE IF pc = "rules" THEN TRUE ELSE RandomElement(1..3) = 1)
           /\ \E pp \in (IF Mode = "sim" THEN {<<RandomElement(Probes), RandomElement(Probes), RandomElement(Probes)>>} ELSE {ExhP}),
                 xs \in (IF Mode = "sim" THEN {<<RandomElement([Sp -> XSG]), RandomElement([Sp -> XSG])>>} ELSE {ExhXS}) :
                 /\ (AllDefined(ModelAM(m), pp)) = TRUE
